@@ -31,7 +31,10 @@
 //!                           `#[allow]`); behaves exactly like method b
 //!                  flags: 1 hold at gate 1 | 2 hold at gate 2 | 4 request undecodable at the server |
 //!                         8 reply undecodable at the client | 16 reply exceeds `lim` | 32 request exceeds
-//!                         the client's max_request_size | 64 drop the call future right after its first poll
+//!                         the client's max_request_size | 64 drop the call future right after its first poll |
+//!                         128 drop it before its first poll | 256 PARK it after its first poll: the caller keeps
+//!                         the future but does not poll it (it awaits other calls meanwhile) until a resume op;
+//!                         the outcome of the call is what the caller sees when it resumes (clonable clients only)
 //!       1 open   a=call id b=gate (1|2)
 //!       2 drop   a=call id                    (drop the call future)
 //!       3 cut                                  (connection fails in both directions)
@@ -40,6 +43,9 @@
 //!       6 barrier                                                           (race mode)
 //!       7 stop                                 (the callee goes away: the future of `serve()` is dropped /
 //!                                               the provider of the remote function is dropped; once per case)
+//!       8 resume a=call id                     (the caller awaits a parked call future again)
+//!       9 limit  a=L (1-64)                    (RFn only: `RFnProvider::set_max_concurrency(L)`; applies to the
+//!                                               invocations that arrive afterwards, the running ones keep going)
 //! Output (scripted): per op `acc n (id ev val)*`: acc 0 = issued, 1 = not issued (client busy / gone /
 //!   unknown id); the n events that became observable in this big step, grouped by call id
 //!   (ascending), in order of occurrence within a call:
@@ -127,9 +133,15 @@ pub fn f_take(s: u64, x: u64) -> u64 {
 
 #[derive(Clone, Copy, Debug, PartialEq, Eq)]
 pub enum Ev {
-    Inv { id: u32, cl: u32, meth: u8, lay: u8, x: u64, flags: u8 },
+    Inv { id: u32, cl: u32, meth: u8, lay: u8, x: u64, flags: u16 },
     Cut,
     Stop,
+    /// the concurrency limit of the remote function was set
+    Limit(u64),
+    /// the caller awaits parked call future `id` again
+    Resume(u32),
+    /// wind-down, second phase: the parked call futures are resumed
+    ResumeAll,
     WindDown,
     DropCall(u32),
     Started(u32),
@@ -781,7 +793,7 @@ pub fn parse(inp: &[u128]) -> Option<Case> {
         return None;
     }
     for o in &c.ops {
-        if o[0] > 7 || o[1] > 1_000_000 || o[2] > 1_000_000 || o[3] > (P as u128) || o[4] > 255 {
+        if o[0] > 9 || o[1] > 1_000_000 || o[2] > 1_000_000 || o[3] > (P as u128) || o[4] > 511 {
             return None;
         }
     }
@@ -816,11 +828,16 @@ fn method_ok(flav: u128, local: bool, meth: u128) -> bool {
 /// local mode: nothing is serialized, the flags about undecodable / oversized requests and replies mean
 /// nothing (as `mask_flags` of the model)
 fn mask_flags(c: &Case, flags: u128) -> u128 {
+    let mut f = flags;
     if c.local() {
-        flags & !(4 | 8 | 16 | 32)
-    } else {
-        flags
+        f &= !(4 | 8 | 16 | 32);
     }
+    // a call future can only be parked while other calls are made if the client can be cloned; dropping
+    // the future (128, 64) comes first
+    if matches!(c.flav, 0 | 7 | 8) || f & (64 | 128) != 0 {
+        f &= !256;
+    }
+    f
 }
 
 /// Quiescence barrier: with the clock paused the sleep returns only when every other task is idle
@@ -890,7 +907,10 @@ impl Out {
 /// Runs the server side on endpoint B: creates target and server, sends the clients, serves.  The stop op
 /// aborts this task: the future of `serve()` (with the target, where it is borrowed) resp. the provider of
 /// the remote function is dropped.
-async fn server_side(c: Case, ctl: Arc<Ctl>, mut tx: Out, err_tx: tokio::sync::mpsc::Sender<remoc::rch::mpsc::RecvError>) -> Option<u64> {
+async fn server_side(
+    c: Case, ctl: Arc<Ctl>, mut tx: Out, err_tx: tokio::sync::mpsc::Sender<remoc::rch::mpsc::RecvError>,
+    mut lim_rx: tokio::sync::mpsc::UnboundedReceiver<usize>,
+) -> Option<u64> {
     let pol = || match c.pol {
         0 => OnReqReceiveError::Ignore,
         1 => OnReqReceiveError::Send(err_tx.clone()),
@@ -994,7 +1014,7 @@ async fn server_side(c: Case, ctl: Arc<Ctl>, mut tx: Out, err_tx: tokio::sync::m
         6 => {
             // RFn: the function cannot mutate captured state; it reads a constant
             let ctl2 = ctl.clone();
-            let (f, _provider) = rfn::RFn::provided_1(move |a: A| {
+            let (f, provider) = rfn::RFn::provided_1(move |a: A| {
                 let ctl = ctl2.clone();
                 async move {
                     let t = Tgt { v: 0, ctl };
@@ -1006,7 +1026,10 @@ async fn server_side(c: Case, ctl: Arc<Ctl>, mut tx: Out, err_tx: tokio::sync::m
             }
             tx.send(Item::F(f)).await;
             drop(tx);
-            // the provider lives until the stop op aborts this task
+            // the provider lives until the stop op aborts this task; limit ops reach it here
+            while let Some(l) = lim_rx.recv().await {
+                provider.set_max_concurrency(l);
+            }
             std::future::pending::<()>().await;
             None
         }
@@ -1062,7 +1085,20 @@ fn mk_arg(c: &Case, id: u32, x: u64, flags: u128) -> A {
 }
 
 /// Starts call `id` as its own task (or reports that the client cannot be used now).
-type CallFut = std::pin::Pin<Box<dyn Future<Output = ()> + Send>>;
+/// A call future; its output is the outcome event (`RetVal` / `RetErr`), logged by whoever awaits it.
+type CallFut = std::pin::Pin<Box<dyn Future<Output = Ev> + Send>>;
+
+/// What became of the future of an issued call.
+enum CallSt {
+    /// awaited by a task of its own
+    Task(tokio::task::JoinHandle<()>),
+    /// polled once and kept by the caller, who awaits other calls meanwhile
+    Parked(CallFut),
+    /// parked, and that first poll already produced the outcome (which the caller sees when it resumes)
+    ParkedDone(Ev),
+    /// dropped, or completed inside its first poll
+    Gone,
+}
 
 /// the call of scripted method `base` in attribute layout `lay` on a client of one of the harness traits
 macro_rules! call_ref {
@@ -1113,21 +1149,19 @@ fn start_call(c: &Case, ctl: &Arc<Ctl>, clients: &mut [Option<Cl>], id: u32, cl:
     let (meth, lay) = if c.flav >= 6 { (meth, 0) } else { (meth % 8, meth / 8) };
     let full_meth = meth + 8 * lay;
     let a = mk_arg(c, id, x, flags);
-    let ctl2 = ctl.clone();
-    let ctl3 = ctl.clone();
     let fin = move |r: Result<R, CallError>| match r {
-        Ok(r) => ctl2.push(Ev::RetVal(id, r.val)),
-        Err(e) => ctl2.push(Ev::RetErr(id, err_class(&e))),
+        Ok(r) => Ev::RetVal(id, r.val),
+        Err(e) => Ev::RetErr(id, err_class(&e)),
     };
     let fin_fn = move |r: FnRes| match r {
-        Ok(r) => ctl3.push(Ev::RetVal(id, r.val)),
-        Err(e) => ctl3.push(Ev::RetErr(id, fn_err_class(&e))),
+        Ok(r) => Ev::RetVal(id, r.val),
+        Err(e) => Ev::RetErr(id, fn_err_class(&e)),
     };
     if !method_ok(c.flav, c.local(), full_meth) {
         return None;
     }
     let slot = clients.get_mut(cl)?;
-    let inv = Ev::Inv { id, cl: cl as u32, meth: eff_meth(c.flav, meth) as u8, lay: lay as u8, x, flags: flags as u8 };
+    let inv = Ev::Inv { id, cl: cl as u32, meth: eff_meth(c.flav, meth) as u8, lay: lay as u8, x, flags: flags as u16 };
     let h: CallFut = match slot.as_mut()? {
         Cl::M(m) => {
             let mut m = m.clone();
@@ -1230,7 +1264,8 @@ async fn run_case(c: Case) -> Option<Trace> {
     let (uerr_tx, mut uerr_rx) = tokio::sync::mpsc::channel(256);
     let (local_tx, mut local_rx) = tokio::sync::mpsc::unbounded_channel();
     let out = if c.local() { Out::Local(local_tx) } else { Out::Remote(tx_b) };
-    let mut srv = tokio::spawn(server_side(c.clone(), ctl.clone(), out, uerr_tx));
+    let (lim_tx, lim_rx) = tokio::sync::mpsc::unbounded_channel();
+    let mut srv = tokio::spawn(server_side(c.clone(), ctl.clone(), out, uerr_tx, lim_rx));
 
     // receive the clients on A (local mode: take the client from the server side as it is)
     let mut clients: Vec<Option<Cl>> = Vec::new();
@@ -1276,7 +1311,15 @@ async fn run_case(c: Case) -> Option<Trace> {
     }
 
     // per call op: the call id (ids are given to issued calls only) and the task running the call
-    let mut calls: Vec<Option<(u32, Option<tokio::task::JoinHandle<()>>)>> = Vec::new();
+    let mut calls: Vec<Option<(u32, CallSt)>> = Vec::new();
+    // awaiting a call future = a task that logs the outcome
+    let await_call = |ctl: &Arc<Ctl>, f: CallFut| {
+        let ctl = ctl.clone();
+        CallSt::Task(tokio::spawn(async move {
+            let e = f.await;
+            ctl.push(e);
+        }))
+    };
     let mut issued = 0u32;
     let mut polled_once = Vec::new();
     let mut steps = Vec::new();
@@ -1293,26 +1336,40 @@ async fn run_case(c: Case) -> Option<Trace> {
                 if ok {
                     issued += 1;
                 }
+                let fl = mask_flags(&c, o[4]);
                 let h = match f {
-                    Some(f) if o[4] & 128 != 0 => {
+                    Some(f) if fl & 128 != 0 => {
                         // the call future is dropped before it was ever polled
                         drop(f);
                         ctl.push(Ev::DropCall(id));
-                        None
+                        CallSt::Gone
                     }
-                    Some(mut f) if o[4] & 64 != 0 => {
+                    Some(mut f) if fl & 64 != 0 => {
                         polled_once.push(id);
                         // poll the call future exactly once (it queues its request), then drop it
                         let w = futures::task::noop_waker();
                         let mut cx = std::task::Context::from_waker(&w);
-                        if f.as_mut().poll(&mut cx).is_pending() {
-                            drop(f);
-                            ctl.push(Ev::DropCall(id));
+                        match f.as_mut().poll(&mut cx) {
+                            Poll::Pending => {
+                                drop(f);
+                                ctl.push(Ev::DropCall(id));
+                            }
+                            Poll::Ready(e) => ctl.push(e),
                         }
-                        None
+                        CallSt::Gone
                     }
-                    Some(f) => Some(tokio::spawn(f)),
-                    None => None,
+                    Some(mut f) if fl & 256 != 0 => {
+                        // poll the call future exactly once (it queues its request) and keep it: the caller
+                        // turns to other calls and looks at this one again when the case says so
+                        let w = futures::task::noop_waker();
+                        let mut cx = std::task::Context::from_waker(&w);
+                        match f.as_mut().poll(&mut cx) {
+                            Poll::Pending => CallSt::Parked(f),
+                            Poll::Ready(e) => CallSt::ParkedDone(e),
+                        }
+                    }
+                    Some(f) => await_call(&ctl, f),
+                    None => CallSt::Gone,
                 };
                 calls.push(if ok { Some((id, h)) } else { None });
                 if ok {
@@ -1330,14 +1387,42 @@ async fn run_case(c: Case) -> Option<Trace> {
                     _ => 1,
                 }
             }
-            2 => match calls.get(o[1] as usize) {
-                Some(Some((id, Some(h)))) if !h.is_finished() => {
-                    h.abort();
-                    ctl.push(Ev::DropCall(*id));
+            2 => match calls.get_mut(o[1] as usize) {
+                Some(Some((id, st))) => match st {
+                    CallSt::Task(h) if !h.is_finished() => {
+                        h.abort();
+                        ctl.push(Ev::DropCall(*id));
+                        0
+                    }
+                    CallSt::Parked(_) | CallSt::ParkedDone(_) => {
+                        *st = CallSt::Gone;
+                        ctl.push(Ev::DropCall(*id));
+                        0
+                    }
+                    _ => 1,
+                },
+                _ => 1,
+            },
+            8 => match calls.get_mut(o[1] as usize) {
+                Some(Some((id, st))) if matches!(st, CallSt::Parked(_) | CallSt::ParkedDone(_)) => {
+                    ctl.push(Ev::Resume(*id));
+                    match std::mem::replace(st, CallSt::Gone) {
+                        CallSt::Parked(f) => *st = await_call(&ctl, f),
+                        CallSt::ParkedDone(e) => ctl.push(e),
+                        _ => unreachable!(),
+                    }
                     0
                 }
                 _ => 1,
             },
+            9 => {
+                if c.flav == 6 && !stopped && (1..=64).contains(&o[1]) && lim_tx.send(o[1] as usize).is_ok() {
+                    ctl.push(Ev::Limit(o[1] as u64));
+                    0
+                } else {
+                    1
+                }
+            }
             3 if c.local() => 1, // no connection between the callers and the callee
             3 => {
                 net.a2b.fail(Fault::StreamErr);
@@ -1420,6 +1505,16 @@ async fn run_case(c: Case) -> Option<Trace> {
     net.set_auto(true);
     ctl.open_all();
     barrier().await;
+    // second phase: the callers turn to their parked call futures again
+    ctl.push(Ev::ResumeAll);
+    for (_, st) in calls.iter_mut().flatten() {
+        match std::mem::replace(st, CallSt::Gone) {
+            CallSt::Parked(f) => *st = await_call(&ctl, f),
+            CallSt::ParkedDone(e) => ctl.push(e),
+            other => *st = other,
+        }
+    }
+    barrier().await;
     clients.clear();
     barrier().await;
     if !srv_done && srv.is_finished() {
@@ -1433,8 +1528,8 @@ async fn run_case(c: Case) -> Option<Trace> {
         ctl.push(Ev::UserErrs(n));
     }
     let log = ctl.log.lock().unwrap().clone();
-    for (_, h) in calls.iter().flatten() {
-        if let Some(h) = h {
+    for (_, st) in calls.iter().flatten() {
+        if let CallSt::Task(h) = st {
             h.abort();
         }
     }
@@ -1455,7 +1550,9 @@ fn ev_nums(e: &Ev) -> Option<(u32, u128, u128)> {
         Ev::UserErrs(n) => (ERR_ID, 8, n as u128),
         Ev::SrvDone(c) => (SRV_ID, 9, c as u128),
         Ev::Torn(i) => (i, 7, 0),
-        Ev::Inv { .. } | Ev::DropCall(_) | Ev::Cut | Ev::Stop | Ev::WindDown => return None,
+        Ev::Inv { .. } | Ev::DropCall(_) | Ev::Cut | Ev::Stop | Ev::Limit(_) | Ev::Resume(_) | Ev::ResumeAll | Ev::WindDown => {
+            return None
+        }
     })
 }
 
@@ -1510,7 +1607,7 @@ struct CallInfo {
     meth: u8,
     lay: u8,
     x: u64,
-    flags: u8,
+    flags: u16,
     inv_at: usize,
     dropped_at: Option<usize>,
     started: Vec<usize>,
@@ -1598,7 +1695,8 @@ fn verified_lin(history: &[u128]) -> Result<bool, String> {
 ///      O2 a returned value is the value the target computed for this very call;
 ///      O3 every call is started / applied at most once (whatever its outcome);
 ///      O4 while a `&mut` method is executing no other method of the target is (no torn read either);
-///      O5 the client-visible history is linearizable (verified checker).
+///      O5 the client-visible history is linearizable (verified checker);
+///      O8 a remote function never runs more invocations at a time than the limit in force when they were made.
 /// C19: O6 a cancellable method whose caller is gone is abandoned at its suspension point (scripted: in
 ///         the same big step) and a call dropped while queued never starts; a no_cancel method that
 ///         started finishes and is never cancelled;
@@ -1613,6 +1711,7 @@ fn oracle(c: &Case, t: &Trace) -> String {
     let wind = t.log.iter().position(|e| *e == Ev::WindDown).unwrap_or(t.log.len());
     let cut_at = t.log.iter().position(|e| *e == Ev::Cut);
     let stop_at = t.log.iter().position(|e| *e == Ev::Stop);
+    let resume_all = t.log.iter().position(|e| *e == Ev::ResumeAll).unwrap_or(t.log.len());
     if let Some(Ev::Torn(i)) = t.log.iter().find(|e| matches!(e, Ev::Torn(_))) {
         return format!("FAIL: O4 call {i} read two different target states while it held the target");
     }
@@ -1622,6 +1721,15 @@ fn oracle(c: &Case, t: &Trace) -> String {
         }
         if k.dropped_at.is_none() && k.ret.is_empty() {
             return format!("FAIL: O1 call {i} never completed although everything was released (server wedged?)");
+        }
+        // a caller that does not look at its call future (parked: polled once, not awaited) holds up nobody
+        // else: every call that is being awaited completes without the parked futures being resumed
+        let parked_to_the_end = k.flags & 256 != 0 && !t.log[..resume_all].contains(&Ev::Resume(i as u32));
+        if k.dropped_at.is_none() && !parked_to_the_end && k.ret.first().map_or(false, |(p, _)| *p > resume_all) {
+            return format!(
+                "FAIL: O1 call {i} completed only after the parked call futures of other calls were awaited again \
+                 (a caller that does not pick up its reply must not hold up other calls)"
+            );
         }
         if k.started.len() > 1 || k.applied.len() > 1 {
             return format!("FAIL: O3 call {i} was executed {} times (applied {} times)", k.started.len(), k.applied.len());
@@ -1650,6 +1758,31 @@ fn oracle(c: &Case, t: &Trace) -> String {
                     running.push(i);
                 }
                 Ev::Finished(i) | Ev::Cancelled(i) => running.retain(|j| *j != i),
+                _ => {}
+            }
+        }
+    }
+    // O8 concurrency limit of a remote function (scripted cases: a call belongs to the limit in force when it
+    // was made): never more than that many of them execute at the same time
+    if c.flav == 6 && c.mode == 0 {
+        let mut limits: Vec<u64> = vec![32];
+        let mut gen_of: Vec<usize> = Vec::new();
+        let mut running: Vec<u64> = vec![0];
+        for e in &t.log {
+            match *e {
+                Ev::Limit(l) if l != *limits.last().unwrap() => {
+                    limits.push(l);
+                    running.push(0);
+                }
+                Ev::Inv { .. } => gen_of.push(limits.len() - 1),
+                Ev::Started(i) => {
+                    let g = gen_of[i as usize];
+                    running[g] += 1;
+                    if running[g] > limits[g] {
+                        return format!("FAIL: O8 call {i} started although {} calls made under the limit {} were executing", running[g] - 1, limits[g]);
+                    }
+                }
+                Ev::Finished(i) | Ev::Cancelled(i) => running[gen_of[i as usize]] -= 1,
                 _ => {}
             }
         }
@@ -1827,6 +1960,8 @@ fn signature(c: &Case, t: &Trace) -> String {
     feat(calls.iter().any(|k| k.dropped_at.is_some() && k.started.is_empty() && k.flags & 128 == 0), "skip");
     feat(calls.iter().any(|k| k.dropped_at.is_some() && !k.finished.is_empty() && no_cancel(c, k.meth)), "ncdone");
     feat(calls.iter().any(|k| k.flags & 128 != 0), "unpolled");
+    feat(calls.iter().any(|k| k.flags & 256 != 0), "park");
+    feat(t.log[..wind].iter().any(|e| matches!(e, Ev::Limit(_))), "limit");
     feat(calls.iter().any(|k| k.flags & 4 != 0), "qbad");
     feat(calls.iter().any(|k| k.flags & 8 != 0), "rbad");
     feat(calls.iter().any(|k| k.lay != 0), "attr");
@@ -1873,7 +2008,7 @@ fn pick_base_method(r: &mut Rng, flav: u64) -> u64 {
 /// One scripted (mode 0) or race (mode 1) case.  `profile` 0: C12 (concurrency, mixes of methods, few
 /// disturbances), 1: C19 (dropped calls, lost connections, undecodable requests and replies).
 fn gen_case(r: &mut Rng, mode: u64, profile: u64) -> Vec<u128> {
-    let flav = *r.pick(&[0u64, 1, 2, 2, 3, 3, 4, 4, 4, 4, 5, 6, 7, 8]);
+    let flav = *r.pick(&[0u64, 1, 2, 2, 3, 3, 4, 4, 4, 4, 5, 6, 6, 7, 8]);
     let spawn = r.below(2);
     let pol = *r.pick(&[0u64, 0, 0, 1, 2]);
     let ncl = if matches!(flav, 0 | 7 | 8) { 1 } else { r.range(1, 4) };
@@ -1885,6 +2020,7 @@ fn gen_case(r: &mut Rng, mode: u64, profile: u64) -> Vec<u128> {
     let nops = r.range(4, 28);
     let mut ncalls = 0u64;
     let mut held: Vec<(u64, u64)> = Vec::new();
+    let mut parked: Vec<u64> = Vec::new();
     let mut cut_done = false;
     let mut stop_done = false;
     let push = |v: &mut Vec<u128>, o: [u64; 5]| v.extend(o.iter().map(|x| *x as u128));
@@ -1919,6 +2055,11 @@ fn gen_case(r: &mut Rng, mode: u64, profile: u64) -> Vec<u128> {
             } else if r.chance(1, 60) {
                 fl |= 64;
             }
+            // the caller parks the call future after its first poll and turns to other calls
+            if fl & (64 | 128) == 0 && r.chance(1, 8) {
+                fl |= 256;
+                parked.push(ncalls);
+            }
             if fl & 1 != 0 {
                 held.push((ncalls, 1));
             }
@@ -1928,7 +2069,15 @@ fn gen_case(r: &mut Rng, mode: u64, profile: u64) -> Vec<u128> {
             push(&mut v, [0, cl, m, r.below(20), fl]);
             ncalls += 1;
         } else if x < 78 {
-            if !held.is_empty() && r.chance(5, 6) {
+            if flav == 6 && r.chance(1, 4) {
+                // the owner of the remote function changes its concurrency limit
+                push(&mut v, [9, *r.pick(&[1u64, 1, 2, 2, 3, 32, 0, 65]), 0, 0, 0]);
+            } else if !parked.is_empty() && r.chance(1, 3) {
+                let i = r.below(parked.len() as u64) as usize;
+                push(&mut v, [8, parked.remove(i), 0, 0, 0]);
+            } else if r.chance(1, 40) {
+                push(&mut v, [8, r.below(ncalls + 1), 0, 0, 0]);
+            } else if !held.is_empty() && r.chance(5, 6) {
                 let i = r.below(held.len() as u64) as usize;
                 let (c, g) = held.remove(i);
                 push(&mut v, [1, c, g, 0, 0]);
@@ -1962,6 +2111,11 @@ fn gen_case(r: &mut Rng, mode: u64, profile: u64) -> Vec<u128> {
     if r.chance(3, 4) {
         for (c, g) in held.drain(..) {
             push(&mut v, [1, c, g, 0, 0]);
+        }
+    }
+    if r.chance(2, 3) {
+        for c in parked.drain(..) {
+            push(&mut v, [8, c, 0, 0, 0]);
         }
     }
     if r.chance(1, 2) {
@@ -2057,10 +2211,73 @@ fn gen_gone(r: &mut Rng, mode: u64) -> Vec<u128> {
     v
 }
 
+/// "The concurrency limit of a remote function changes while invocations are in flight": an `RFn` with 1-4
+/// clients; calls held at their gates, `set_max_concurrency` with small limits in between, gate openings, a few
+/// parked or dropped call futures.  Every call still gets its outcome, and never more invocations run at a
+/// time than the limit in force when they were made allows.
+fn gen_limit(r: &mut Rng, mode: u64) -> Vec<u128> {
+    let ncl = r.range(1, 4);
+    let cmode = if r.chance(1, 3) { 2 } else { r.below(2) };
+    let defer = if mode == 1 && r.chance(2, 3) { r.next() | 1 } else { 0 };
+    let mut v: Vec<u128> = vec![mode as u128, 6, 0, 0, ncl as u128, cmode as u128, defer as u128, 0];
+    let push = |v: &mut Vec<u128>, o: [u64; 5]| v.extend(o.iter().map(|x| *x as u128));
+    let mut ncalls = 0u64;
+    let mut held: Vec<(u64, u64)> = Vec::new();
+    let mut parked: Vec<u64> = Vec::new();
+    for _ in 0..r.range(4, 18) {
+        let x = r.below(10);
+        if x < 5 || ncalls == 0 {
+            let mut fl = 0u64;
+            if r.chance(1, 2) {
+                fl |= 1;
+                held.push((ncalls, 1));
+            }
+            if r.chance(1, 5) {
+                fl |= 2;
+                held.push((ncalls, 2));
+            }
+            if r.chance(1, 10) {
+                fl |= 256;
+                parked.push(ncalls);
+            }
+            push(&mut v, [0, r.below(ncl), 0, r.below(20), fl]);
+            ncalls += 1;
+        } else if x < 7 {
+            push(&mut v, [9, *r.pick(&[1u64, 1, 2, 2, 3, 4, 32]), 0, 0, 0]);
+        } else if x < 9 && !held.is_empty() {
+            let i = r.below(held.len() as u64) as usize;
+            let (c, g) = held.remove(i);
+            push(&mut v, [1, c, g, 0, 0]);
+        } else if !parked.is_empty() {
+            push(&mut v, [8, parked.remove(0), 0, 0, 0]);
+        } else {
+            push(&mut v, [2, r.below(ncalls), 0, 0, 0]);
+        }
+        if mode == 1 {
+            for _ in 0..r.range(0, 2) {
+                push(&mut v, [5, r.below(2), r.range(1, 4), 0, 0]);
+            }
+        }
+    }
+    if r.chance(3, 4) {
+        for (c, g) in held.drain(..) {
+            push(&mut v, [1, c, g, 0, 0]);
+        }
+    }
+    // calls made after everything before them has finished
+    for _ in 0..r.range(0, 2) {
+        push(&mut v, [0, r.below(ncl), 0, r.below(20), 0]);
+    }
+    v
+}
+
 pub fn gen(r: &mut Rng, i: usize) -> Vec<Vec<u128>> {
     let mode = if i % 3 == 2 { 1 } else { 0 };
     if i % 8 == 7 {
         return vec![gen_gone(r, mode)];
+    }
+    if i % 16 == 11 {
+        return vec![gen_limit(r, mode)];
     }
     vec![gen_case(r, mode, 0)]
 }
@@ -2072,6 +2289,9 @@ pub fn gen_cancel(r: &mut Rng, i: usize) -> Vec<Vec<u128>> {
     let mode = if i % 3 == 2 { 1 } else { 0 };
     if i % 12 == 7 {
         return vec![gen_gone(r, mode)];
+    }
+    if i % 24 == 11 {
+        return vec![gen_limit(r, mode)];
     }
     vec![gen_case(r, mode, 1)]
 }
